@@ -31,20 +31,29 @@ Section PathReplay.
     | p :: r => match bop t p b with Some b' => bops t r b' | None => None end
     end.
 
-  Inductive reach (b1 : BS) : nat -> BS -> Prop :=
-    | reach_start : reach b1 (start_state P) b1
-    | reach_step s b x y t b' : reach b1 s b -> In x (table P) -> s_id x = s -> In y (s_tests x) ->
-        tokP (t_kind y) t -> bops t (t_prods y) b = Some b' -> reach b1 (t_tgt y) b'.
+  (* the path taken so far: matched token and test fired, oldest first *)
+  Definition path := list (Tok * test).
+  Inductive reach (b1 : BS) : nat -> BS -> path -> Prop :=
+    | reach_start : reach b1 (start_state P) b1 []
+    | reach_step s b l x y t b' : reach b1 s b l -> In x (table P) -> s_id x = s -> In y (s_tests x) ->
+        tokP (t_kind y) t -> bops t (t_prods y) b = Some b' -> reach b1 (t_tgt y) b' (l ++ [(t, y)]).
+
+  (* the builder events of a path *)
+  Definition step_events (ty : Tok * test) : list (ev Tok) :=
+    map (ev_of_prod (fst ty) (t_kind (snd ty))) (t_prods (snd ty)).
+  Definition path_events (l : path) : list (ev Tok) := flat_map step_events l.
+  Lemma path_events_snoc l ty : path_events (l ++ [ty]) = path_events l ++ step_events ty.
+  Proof. unfold path_events. rewrite flat_map_app. cbn. now rewrite app_nil_r. Qed.
 
   Definition ends (s : nat) : Prop :=
     exists x y, In x (table P) /\ In y (s_tests x) /\ t_kind y = KEOF /\ t_tgt y = s.
 
   (* frame: the builder state is untouched and a non-empty error list stays non-empty *)
-  Definition fb (c0 c : ctx) : Prop := bs c = bs c0 /\ (errs c0 <> [] -> errs c <> []).
-  Lemma fb_refl c : fb c c. Proof. split; auto. Qed.
-  Lemma fb_same c0 c c' : fb c0 c -> bs c' = bs c -> errs c' = errs c -> fb c0 c'.
-  Proof. intros [H1 H2] B E. split; [congruence | rewrite E; auto]. Qed.
-  Ltac fbs := cbv beta in *; match goal with H : fb _ _ |- fb _ _ => solve [eapply fb_same; [exact H | reflexivity | reflexivity]] end.
+  Definition fb (c0 c : ctx) : Prop := bs c = bs c0 /\ log c = log c0 /\ (errs c0 <> [] -> errs c <> []).
+  Lemma fb_refl c : fb c c. Proof. repeat split; auto. Qed.
+  Lemma fb_same c0 c c' : fb c0 c -> bs c' = bs c -> log c' = log c -> errs c' = errs c -> fb c0 c'.
+  Proof. intros (H1 & H2 & H3) B L E. split; [congruence | split; [congruence | rewrite E; auto]]. Qed.
+  Ltac fbs := cbv beta in *; match goal with H : fb _ _ |- fb _ _ => solve [eapply fb_same; [exact H | reflexivity | reflexivity | reflexivity]] end.
 
   Lemma add_error_fb c0 e c : fb c0 c ->
     sat (add_error P e c) (fun _ c' => fb c0 c' /\ errs c' <> []) (fun _ => True) True.
@@ -52,7 +61,7 @@ Section PathReplay.
     intros H. unfold add_error. destruct (existsb _ _) eqn:E; simpl.
     - split; [exact H | eapply existsb_nonempty; eauto].
     - assert (N : errs c ++ [e] <> []) by (destruct (errs c); discriminate).
-      assert (G : fb c0 (set_errs (errs c ++ [e]) c)) by (destruct H as [H1 H2]; split; simpl; auto).
+      assert (G : fb c0 (set_errs (errs c ++ [e]) c)) by (destruct H as (H1 & H2 & H3); split; [|split]; simpl; auto).
       destruct (_ <? _); simpl; auto.
   Qed.
 
@@ -108,47 +117,55 @@ Section PathReplay.
   (* one builder call: either it returned normally, or an error has been recorded *)
   Lemma b_call_replay stop f c :
     sat (b_call P stop f c)
-        (fun _ c' => (errs c' <> [] \/ f (bs c) = BOk (bs c')) /\ (errs c <> [] -> errs c' <> []))
+        (fun _ c' => (errs c' <> [] \/ f (bs c) = BOk (bs c')) /\ log c' = log c /\ (errs c <> [] -> errs c' <> []))
         (fun _ => True) True.
   Proof.
     unfold b_call. destruct (f (bs c)) as [b'|e b'|]; simpl; [split; [now right | auto] | | exact I].
     destruct stop; simpl; [exact I|].
     eapply sat_weaken; [apply (add_error_fb (set_bs b' c) e (set_bs b' c)); apply fb_refl | | auto | auto].
-    intros _ c' [[_ M] N]. simpl in M. split; [now left | auto].
+    intros _ c' [(_ & L & M) N]. simpl in M, L. split; [now left | auto].
   Qed.
 
   Lemma exec_replay stop t k : forall ps c,
     sat (exec P stop t k ps c)
-        (fun _ c' => (errs c' <> [] \/ bops t ps (bs c) = Some (bs c')) /\ (errs c <> [] -> errs c' <> []))
+        (fun _ c' => (errs c' <> [] \/ bops t ps (bs c) = Some (bs c'))
+                     /\ log c' = rev (map (ev_of_prod t k) ps) ++ log c /\ (errs c <> [] -> errs c' <> []))
         (fun _ => True) True.
   Proof.
     induction ps as [|p ps IH]; intros c; simpl; [split; [now right | auto]|].
-    eapply sat_bind with (Q1 := fun _ c' => (errs c' <> [] \/ bop t p (bs c) = Some (bs c')) /\ (errs c <> [] -> errs c' <> [])).
+    eapply sat_bind with (Q1 := fun _ c' => (errs c' <> [] \/ bop t p (bs c) = Some (bs c'))
+                                            /\ log c' = ev_of_prod t k p :: log c /\ (errs c <> [] -> errs c' <> [])).
     - unfold bop. destruct p; simpl;
-        (eapply sat_weaken; [eapply b_call_replay | | auto | auto]; simpl; intros _ c' [[H|H] M]; (split; [|exact M]);
+        (eapply sat_weaken; [eapply b_call_replay | | auto | auto]; simpl; intros _ c' ([H|H] & L & M); (split; [|split; [exact L | exact M]]);
          [now left | right; rewrite H; reflexivity]).
-    - intros _ c' [H1 H2].
+    - intros _ c' (H1 & L1 & H2).
       eapply sat_weaken; [apply IH | | auto | auto]. simpl.
-      intros _ c'' [H3 H4]. split; [|auto].
-      destruct H1 as [H1|H1]; [left; auto|]. destruct H3 as [H3|H3]; [now left|]. right. rewrite H1. exact H3.
+      intros _ c'' (H3 & L3 & H4). split; [|split; [|auto]].
+      + destruct H1 as [H1|H1]; [left; auto|]. destruct H3 as [H3|H3]; [now left|]. right. rewrite H1. exact H3.
+      + rewrite L3, L1, <- app_assoc. reflexivity.
   Qed.
 
   Section State.
     Variable b1 : BS.
-    Definition InvR (s : nat) (c : ctx) : Prop := errs c <> [] \/ reach b1 s (bs c).
+    Variable log0 : list (ev Tok).
+    Definition InvR (s : nat) (c : ctx) : Prop :=
+      errs c <> [] \/ exists l, reach b1 s (bs c) l /\ log c = rev (path_events l) ++ log0.
+
+    Lemma InvR_fb s c c' : fb c c' -> InvR s c -> InvR s c'.
+    Proof. intros (B & L & M) [H|(l & R & Hl)]; [left; auto | right; exists l; rewrite B, L; auto]. Qed.
 
     Lemma run_tests_reach stop x c0 e : In x (table P) -> InvR (s_id x) c0 ->
       forall tests t c, incl tests (s_tests x) -> fb c0 c -> is_eof P t = e ->
       sat (run_tests P stop tests t c)
           (fun r c' => match fst r with
                        | Some s' => InvR s' c' /\ (e = true -> ends s')
-                       | None => bs c' = bs c0
+                       | None => fb c0 c'
                        end /\ (errs c0 <> [] -> errs c' <> []))
           (fun _ => True) True.
     Proof.
       intros Hx HI.
       induction tests as [|y ys IH]; intros t c Hincl Hfb He; simpl.
-      { split; apply Hfb. }
+      { split; [exact Hfb | apply Hfb]. }
       assert (Hy : In y (s_tests x)) by (apply Hincl; now left).
       assert (Hys : incl ys (s_tests x)) by (intros z Hz; apply Hincl; now right).
       eapply sat_bind; [apply match_k_fb; exact Hfb|].
@@ -157,16 +174,17 @@ Section PathReplay.
         sat (bind (exec P stop t1 (t_kind y) (t_prods y) c2) (fun _ c3 => Ok (Some (t_tgt y), t1) c3))
             (fun r c' => match fst r with
                          | Some s' => InvR s' c' /\ (e = true -> ends s')
-                         | None => bs c' = bs c0
+                         | None => fb c0 c'
                          end /\ (errs c0 <> [] -> errs c' <> []))
             (fun _ => True) True).
       { intros Hb c2 Hfb2. destruct (Hk Hb) as [Ht Hke].
-        eapply sat_bind; [apply exec_replay|]. intros _ c3 [Hr Hm]. simpl.
+        eapply sat_bind; [apply exec_replay|]. intros _ c3 (Hr & Hl & Hm). simpl.
         split; [split|].
         - destruct Hr as [Hr|Hr]; [now left|].
-          destruct HI as [HI|HI]; [left; apply Hm, Hfb2, HI|].
-          right. destruct Hfb2 as [B2 _]. rewrite B2 in Hr.
-          eapply reach_step; eauto.
+          destruct HI as [HI|(l & HR & HL)]; [left; apply Hm, Hfb2, HI|].
+          right. destruct Hfb2 as (B2 & L2 & _). rewrite B2 in Hr. exists (l ++ [(t1, y)]). split.
+          + eapply reach_step; eauto.
+          + rewrite Hl, L2, HL, path_events_snoc, rev_app_distr, <- app_assoc. reflexivity.
         - intros Et. subst e. exists x, y. repeat split; auto.
         - intros N. apply Hm. apply Hfb2. exact N. }
       destruct b.
@@ -210,45 +228,47 @@ Section PathReplay.
     Proof.
       induction fuel as [|f IH]; intros s c HI; simpl; [exact I|].
       pose proof (read_fb c c (fb_refl c)) as R. destruct (read P c) as [t c1]. simpl in R.
-      assert (HI1 : InvR s c1).
-      { destruct R as [B M]. destruct HI as [HI|HI]; [left; auto | right; rewrite B; exact HI]. }
+      assert (HI1 : InvR s c1) by (eapply InvR_fb; eauto).
+      destruct R as (_ & _ & R).
       eapply sat_bind; [apply match_token_reach; eauto|].
       intros s' c2 (I2 & E2 & M2). simpl.
       destruct (is_eof P t) eqn:Et.
-      - simpl. repeat split; auto. intros N. apply M2, R, N.
+      - simpl. repeat split; auto.
       - eapply sat_weaken; [apply IH; auto | | auto | auto]. simpl. intros s'' c'' (A & B & C). repeat split; auto.
-        intros N. apply C, M2, R, N.
     Qed.
   End State.
 
+  (* a normal return: the start of the document, a path to the target of an #EOF test, the end of the document;
+     the interpreter's event log is exactly the events of that path *)
   Theorem path_replay stop toks m b c : parse P stop toks m b = Ok tt c ->
-    exists b1 s b2, b_start P RGherkinDocument b = BOk b1 /\ reach b1 s b2 /\ ends s
-                    /\ b_end P RGherkinDocument b2 = BOk (bs c).
+    exists b1 s b2 l, b_start P RGherkinDocument b = BOk b1 /\ reach b1 s b2 l /\ ends s
+                      /\ b_end P RGherkinDocument b2 = BOk (bs c)
+                      /\ events c = EvS RGherkinDocument :: path_events l ++ [EvE RGherkinDocument].
   Proof.
     unfold parse. intros H.
     set (c0 := emit (EvS RGherkinDocument) (init_ctx toks m b)) in *.
     pose proof (b_call_replay stop (b_start P RGherkinDocument) c0) as S1.
     destruct (b_call P stop (b_start P RGherkinDocument) c0) as [[] c1| | | |]; cbn [bind] in H; try discriminate.
-    simpl in S1. destruct S1 as [S1 _].
-    assert (I1 : InvR (bs c1) (start_state P) c1).
-    { destruct S1 as [S1|S1]; [now left | right; constructor]. }
-    pose proof (loop_reach (bs c1) stop (S (S (length toks))) _ _ I1) as L.
+    simpl in S1. destruct S1 as (S1 & L1 & _).
+    assert (I1 : InvR (bs c1) [EvS RGherkinDocument] (start_state P) c1).
+    { destruct S1 as [S1|S1]; [now left | right; exists []; split; [constructor | exact L1]]. }
+    pose proof (loop_reach (bs c1) [EvS RGherkinDocument] stop (S (S (length toks))) _ _ I1) as L.
     destruct (loop P (S (S (length toks))) stop (start_state P) c1) as [s' c2| | | |]; cbn [bind] in H; try discriminate.
     simpl in L. destruct L as (I2 & Hfin & M2).
     set (c2' := emit (EvE RGherkinDocument) c2) in *.
     pose proof (b_call_replay stop (b_end P RGherkinDocument) c2') as S3.
     destruct (b_call P stop (b_end P RGherkinDocument) c2') as [[] c3| | | |]; cbn [bind] in H; try discriminate.
     simpl in S3. destruct (errs c3) eqn:Ee; [|discriminate]. inversion H; subst c3. clear H.
-    destruct S3 as [S3 M3].
+    destruct S3 as (S3 & L3 & M3).
     assert (N2 : errs c2 = []).
     { destruct (errs c2) eqn:E2; auto. exfalso. apply M3; [discriminate | reflexivity]. }
     assert (N1 : errs c1 = []).
     { destruct (errs c1) eqn:E1; auto. exfalso. rewrite N2 in M2. apply M2; [discriminate | reflexivity]. }
-    exists (bs c1), s', (bs c2).
     destruct S1 as [S1|S1]; [rewrite N1 in S1; congruence|].
-    destruct I2 as [I2|I2]; [congruence|].
+    destruct I2 as [I2|(l & I2 & Hl)]; [congruence|].
     destruct Hfin as [Hfin|Hfin]; [|congruence].
     destruct S3 as [S3|S3]; [congruence|].
-    repeat split; auto.
+    exists (bs c1), s', (bs c2), l. repeat split; auto.
+    unfold events. rewrite L3. unfold c2'. cbn [log emit]. rewrite Hl. cbn [rev]. rewrite rev_app_distr, rev_involutive. reflexivity.
   Qed.
 End PathReplay.
